@@ -16,6 +16,20 @@ from .. import regex as R
 from ..mir import callee_name
 from ..regex import Rx
 
+CLAIM = {
+    "text": "Decides, from the source and MIR of the current tree: (R1) the ε-wiring of every NFA combinator (sequence, choice, some, optional, many, "
+            "From<&str>, predicate, empty, nothing) read as a template over roles equals Thompson's construction in its fresh or in-place variant, "
+            "merge_states renumbers operands into disjoint increasing id ranges, `+`/`|` delegate to sequence/choice; (R2) every combinator application "
+            "reachable from the grammars of decoder.rs is shape-typed and an in-place start→stop ε-edge is applied to clean operands only; (R3) for each "
+            "of the production grammars (all `impl Matcher`, both decoder automata, the UTF-8 helper) the automaton as built accepts exactly the regular "
+            "language of the expression (exact DFA equivalence with a shortest counterexample), never the empty input, and each decoder automaton is the "
+            "tagged union of its registered members; the as-built model itself is checked exhaustively on all expressions up to 2 (quick) / 4 (thorough) "
+            "operators; (R4) compile() guards every emitted table row by the density assert and assigns is_accepting/is_terminal/tags from "
+            "contains(stop)/empty row/member tags. Not decided: the power-set worklist and ε-closure of compile() beyond R4, and termination.",
+    "technique": "role dataflow over combinator bodies (syn AST) + own Thompson builder driven by the read templates + DFA equivalence; MIR provenance terms and must-pass for compile()",
+    "design_ref": "DESIGN.md §5 C15, §3, §11",
+}
+
 AUTOMATA_MOD = "automata::NFA"
 
 
@@ -198,7 +212,7 @@ def _flags_text(si, so):
 
 
 def rule_r2(ctx, wiring, grammars):
-    ctx.rule("R2-SHAPE", "each combinator application in the grammars is typed (start-has-in-edge, stop-has-out-edge); in-place start→stop needs a clean operand", floor=60)
+    ctx.rule("R2-SHAPE", "each combinator application in the grammars is typed (start-has-in-edge, stop-has-out-edge); in-place start→stop needs a clean operand", floor=51)
     model = wiring.model()
     memo = {}
     seen_nodes = {}
@@ -516,7 +530,6 @@ def rule_r4(ctx):
             if a0.endswith(".tags"):
                 tag_ins.append((bb, a0, vexpr(comp, t["args"][1]), t.get("line")))
     member = "(next(&into_iter(BTreeSet::iter(&*deref(&(%s as Some).0.0)))) as Some).0" % ITER
-    rx_val = re.compile(r"Clone::clone\(&\(Option::and_then\(BTreeMap::get\(&\*arg1\.states, &\*%s\), closure<(?P<c>[^>]+(?:>::compile::\{closure#\d+\})?)>\) as Some\)\.0\)" % re.escape(member))
     good = False
     why = "no insert into info.tags"
     if len(tag_ins) == 1:
@@ -534,7 +547,9 @@ def rule_r4(ctx):
                     rets.append("%s(%s)" % (_short_fn(callee_name(t2)), ", ".join(vexpr(cb, x) for x in t2["args"])))
             nxt = [b3 for b3, t3 in comp.calls() if vexpr(comp, t3["dest"]) == member[1:-len(" as Some).0")]]
             cfg = comp.cfg()
-            in_loop = bool(nxt) and bb in cfg.reachable_from(nxt[0]) and nxt[0] in cfg.reachable_from(bb)
+            outer = [b3 for b3, t3 in comp.calls() if vexpr(comp, t3["dest"]) == ITER]
+            # the insert must flow back to the *inner* next() without leaving through the loop over dfa_states
+            in_loop = bool(nxt) and bool(outer) and bb in cfg.reachable_from(nxt[0], removed=outer) and nxt[0] in cfg.reachable_from(bb, removed=outer)
             if rets != ["clone(&*arg2.tag)"]:
                 why = "the and_then closure computes %s instead of s.tag.clone()" % rets
             elif not in_loop:
